@@ -40,6 +40,16 @@ def _loader_kinds(ctx: Ctx, names) -> set[str]:
     return out
 
 
+def _is_resolver_helper(f: FuncInfo) -> bool:
+    """A predicate of the discovery code: a method of the resolver, or a private function / method of the file_resolver
+    package (helpers move between the class and module level)."""
+    if isinstance(f.node, ast.Lambda):
+        return False
+    if f.cls is not None and f.cls.qual == RESOLVER:
+        return True
+    return f.module.name.startswith("flowmark.file_resolver") and f.name.startswith("_") and not f.name.startswith("__")
+
+
 def _yields(flow) -> list[Node]:
     out = []
     for n in flow.cfg.nodes:
@@ -85,7 +95,10 @@ def filter_kinds(ctx: Ctx, fi: FuncInfo, expr: ast.AST, node: Node, depth: int =
                     sl = prog.slice(fi, recv, node)
                     names = sl.callees()
                     found = False
-                    via_callers = _spec_kinds_from_callers(ctx, fi, recv, node, depth)
+                    via_callers = set()
+                    # a literal tuple / list of specs is classified element by element
+                    for el in (recv.elts if isinstance(recv, (ast.Tuple, ast.List)) else [recv]):
+                        via_callers |= _spec_kinds_from_callers(ctx, fi, el, node, depth)
                     if via_callers:
                         kinds |= via_callers
                         found = True
@@ -107,7 +120,7 @@ def filter_kinds(ctx: Ctx, fi: FuncInfo, expr: ast.AST, node: Node, depth: int =
                         kinds.add("spec?")
             else:
                 t = prog.resolve_call(fi, c)
-                if isinstance(t, list) and depth < 3 and t[0].cls is not None and t[0].cls.qual == RESOLVER:
+                if isinstance(t, list) and depth < 3 and _is_resolver_helper(t[0]):
                     callee = t[0]
                     if any(isinstance(x, ast.Attribute) and x.attr == "files_max_size" for x in walk_no_nested(callee.node)):
                         kinds.add("size")
@@ -179,7 +192,7 @@ def _helper_call(ctx: Ctx, fi: FuncInfo, expr: ast.AST) -> tuple[FuncInfo, bool]
         neg, e = True, e.operand
     if isinstance(e, ast.Call):
         t = ctx.prog.resolve_call(fi, e)
-        if isinstance(t, list) and t[0].cls is not None and t[0].cls.qual == RESOLVER and not any(
+        if isinstance(t, list) and _is_resolver_helper(t[0]) and not any(
                 isinstance(x, ast.Attribute) and x.attr == "files_max_size" for x in walk_no_nested(t[0].node)):
             return t[0], neg
     return None
@@ -244,8 +257,10 @@ def _helper_filters(ctx: Ctx, callee: FuncInfo, want: bool, depth: int) -> dict[
                         for part, truth in _conjuncts(t.ast, lab):
                             neg = isinstance(part, ast.UnaryOp) and isinstance(part.op, ast.Not)
                             comp = {}
-                            if isinstance(h.ast.target, ast.Name):
-                                comp[h.ast.target.id] = h.ast.iter
+                            # loop variables of every loop around the test (`for part in parts: for spec in (a, b): if spec.match...`)
+                            for h2 in flow.cfg.nodes:
+                                if h2.kind == "for" and isinstance(h2.ast.target, ast.Name) and (h2 is h or t in flow.loop_body_nodes(h2)):
+                                    comp[h2.ast.target.id] = h2.ast.iter
                             for k in filter_kinds(ctx, callee, part, t, comp_bind_extra=comp):
                                 f[k] = not (truth != neg)  # on the accepting path the rejecting condition was false
         result = f if result is None else {k: v for k, v in result.items() if f.get(k) == v}
@@ -705,6 +720,36 @@ def check_cached_values_not_mutated(ctx: Ctx) -> None:
     ctx.require("R-RESOLVE-cache", "in-place mutation sites in the file resolver", n_sites, 3)
 
 
+def _fixed_per_owner(ctx: Ctx, fi: FuncInfo, param: str) -> bool:
+    """A parameter of a memoising method of a helper object that cannot vary between calls on the same cache: every call
+    site in the package is `self.<cache>.method(..., self.<...>, ...)` - the cache object and the argument both hang off the
+    same owner, and the argument is read from the owner's own attributes only (what `self._config.tool_name` was when the
+    memo table lived on the owner itself)."""
+    from ..dataflow import bind_call
+    from .common import callers_index
+
+    prog = ctx.prog
+    if fi.cls is None:
+        return False
+    sites = 0
+    for cq in callers_index(prog).get(fi.qual, ()):
+        caller = prog.repo.functions.get(cq)
+        if caller is None or isinstance(caller.node, ast.Lambda) or caller.cls is None or not caller.params:
+            return False
+        owner = caller.params[0]
+        for c in ast.walk(caller.node):
+            if isinstance(c, ast.Call) and prog.resolve_call(caller, c) == [fi]:
+                sites += 1
+                recv = c.func.value if isinstance(c.func, ast.Attribute) else None
+                if not (isinstance(recv, ast.Attribute) and isinstance(recv.value, ast.Name) and recv.value.id == owner):
+                    return False
+                arg = bind_call(fi, c).get(param)
+                k = chain_key(arg) if isinstance(arg, ast.Attribute) else None
+                if k is None or k.split(".")[0] != owner:
+                    return False
+    return sites > 0
+
+
 def check_cache_keys(ctx: Ctx) -> None:
     """A memoised value may depend only on what its key is computed from (else a hit returns another input's answer)."""
     repo, prog = ctx.repo, ctx.prog
@@ -725,6 +770,7 @@ def check_cache_keys(ctx: Ctx) -> None:
             key_params = prog.slice(fi, t.slice, node).params() - {selfname}
             val_params = prog.slice(fi, node.ast.value, node).params() - {selfname}
             extra = val_params - key_params
+            extra = {p for p in extra if not _fixed_per_owner(ctx, fi, p)}
             ctx.ob("R-RESOLVE-cache", f"{fi.qual} :: {norm(t)} keyed by all inputs of the cached value", not extra,
                    f"the cached value depends on {sorted(val_params)} but the key only on {sorted(key_params)}: a later call that differs in "
                    f"{sorted(extra)} gets the answer computed for another input", where(fi, node))
